@@ -86,6 +86,11 @@ fn wkind_c(k: WKind) -> char {
         WKind::Ufmt => 'U',
         WKind::Fmt => 'F',
         WKind::Fmt2 => 'G',
+        WKind::UfmtCh => 'u',
+        WKind::FmtCh => 'f',
+        WKind::FmtPad => 'p',
+        WKind::FmtDbg => 'd',
+        WKind::Ch => 'c',
     }
 }
 fn c_wkind(c: char) -> Option<WKind> {
@@ -95,6 +100,11 @@ fn c_wkind(c: char) -> Option<WKind> {
         'U' => WKind::Ufmt,
         'F' => WKind::Fmt,
         'G' => WKind::Fmt2,
+        'u' => WKind::UfmtCh,
+        'f' => WKind::FmtCh,
+        'p' => WKind::FmtPad,
+        'd' => WKind::FmtDbg,
+        'c' => WKind::Ch,
         _ => return None,
     })
 }
@@ -477,6 +487,16 @@ pub fn run_session<C: Autocomplete + Help>(
                 // monitors keep watching what this does to the session (each reports it in its own terms)
                 found!("C05", P_C05, "cursor-out-of-range", op_name(op, &key), i, "{}", what);
             } else {
+                // the session ends here; the property whose key / call left the state broken reports it in its own terms
+                match (&key, op) {
+                    (Shadow::Key(Key::Tab), _) => found!("C11", P_C11, "completion", format!("invalid-line-{}", class), i, "Tab left the edited line in an invalid state: {}", what),
+                    (Shadow::Key(Key::Up), _) | (Shadow::Key(Key::Down), _) => found!("C10", P_C10, "recall", format!("invalid-state-{}", class), i, "recall left the line / history in an invalid state: {}", what),
+                    (Shadow::Key(Key::Enter), _) => found!("C01", P_C01, "after-enter", format!("invalid-state-{}", class), i, "Enter left the line / history in an invalid state: {}", what),
+                    (Shadow::Key(_), _) => found!("C05", P_C05, "lockstep", format!("invalid-line-{}", class), i, "the key left the edited line in an invalid state: {}", what),
+                    (_, Op::Write(_)) => found!("C13", P_C13, "write-changed-line", format!("invalid-line-{}", class), i, "Cli::write left the edited line in an invalid state: {}", what),
+                    (_, Op::SetPrompt(_)) => found!("C06", P_C06, "set-prompt-changed-line", format!("invalid-line-{}", class), i, "set_prompt left the edited line in an invalid state: {}", what),
+                    _ => {}
+                }
                 res.transcript = th;
                 return res;
             }
